@@ -109,7 +109,7 @@ pub fn run(args: &Args, rep: &mut Report) {
         // canaries
         let canary = b.alloc_slice_fill_copy(32, 0x77u8) as *const [u8];
         for opi in 0..args.ops {
-            let sc = rng.below(18);
+            let sc = rng.below(20);
             rep.ctx = format!("boxdiff program {} op {} scenario {} (seed {} shard {})", it, opi, sc, args.seed, args.shard);
             sig = fnv(sig, sc as u64);
             rep.bump(&format!("box.sc{}", sc));
@@ -612,6 +612,71 @@ pub fn run(args: &Args, rep: &mut Report) {
                     let d = drops_since(mark);
                     if d != vec![id] {
                         vdrop(rep, &format!("boxed-iterator/state-not-dropped-exactly-once/{}", ["last", "count", "collect", "fold", "nth+drop", "for", "adaptors", "max", "size_hint+drop"][how]), format!("drops {:?} expected [{}] (dyn={})", d, id, dynamic));
+                    }
+                    rep.bump("c15.box_drop_checks");
+                }
+                17 => {
+                    // arrays of zero-sized elements through the array <-> slice conversions
+                    let (m0, d0) = ledger::zst_counts();
+                    let arr: BBox<[TrackedZst; 4]> = BBox::new_in([TrackedZst::new(), TrackedZst::new(), TrackedZst::new(), TrackedZst::new()], b);
+                    let sl: BBox<[TrackedZst]> = arr.into();
+                    if sl.len() != 4 {
+                        v17(rep, "zst-array-to-slice/length-changed", format!("{} elements instead of 4", sl.len()));
+                    }
+                    let (_, d1) = ledger::zst_counts();
+                    if d1 != d0 {
+                        vdrop(rep, "zst-array-to-slice/destructor-ran-during-conversion", format!("{} drops", d1 - d0));
+                    }
+                    match <BBox<[TrackedZst; 4]>>::try_from(sl) {
+                        Ok(back) => drop(back),
+                        Err(orig) => {
+                            v17(rep, "zst-slice-to-array/rejected-right-length", format!("len {}", orig.len()));
+                            drop(orig);
+                        }
+                    }
+                    let (m2, d2) = ledger::zst_counts();
+                    if m2 - m0 != 4 || d2 - d0 != 4 {
+                        vdrop(rep, "zst-array-conversions/elements-not-dropped-exactly-once", format!("minted {} dropped {}", m2 - m0, d2 - d0));
+                    }
+                    let unit: BBox<[(); 3]> = BBox::new_in([(); 3], b);
+                    let us: BBox<[()]> = unit.into();
+                    if us.len() != 3 {
+                        v17(rep, "zst-array-to-slice/length-changed", format!("{} units instead of 3", us.len()));
+                    }
+                    rep.bump("c15.box_drop_checks");
+                }
+                18 => {
+                    // collecting into a boxed slice from an iterator that panics part-way: nothing may be
+                    // dropped twice and no uninitialised slot may be dropped (exact and inexact hints)
+                    let n = rng.range(1, 6);
+                    let fail_at = rng.below(n + 2);
+                    let exact = rng.chance(1, 2);
+                    let mark = ledger::log_len();
+                    let minted_before = ledger::minted();
+                    let r = std::panic::catch_unwind(std::panic::AssertUnwindSafe(|| {
+                        let it = (0..n).map(|i| {
+                            if i == fail_at {
+                                std::panic::panic_any(ledger::FusePanic);
+                            }
+                            Tracked::new(i as u32)
+                        });
+                        if exact {
+                            let bx: BBox<[Tracked]> = BBox::from_iter_in(it, b);
+                            bx.len()
+                        } else {
+                            let bx: BBox<[Tracked]> = BBox::from_iter_in(it.filter(|_| true), b);
+                            bx.len()
+                        }
+                    }));
+                    let minted = ledger::minted() - minted_before;
+                    let d = drops_since(mark);
+                    let dd = ledger::doubles();
+                    if !dd.is_empty() || d.len() as u32 > minted || !ledger::unknowns().is_empty() {
+                        rep.violate("C17", "C17/from_iter_in/panicking-iterator/dropped-more-than-created", format!("created {} dropped {:?} (n {} fail_at {} exact {})", minted, d, n, fail_at, exact));
+                        rep.violate("C16", "C16/boxed-slice-from_iter_in/dropped-more-than-created", format!("created {} dropped {:?}", minted, d));
+                    }
+                    if r.is_ok() && d.len() as u32 != minted {
+                        vdrop(rep, "from_iter_in/elements-not-dropped-exactly-once", format!("created {} dropped {}", minted, d.len()));
                     }
                     rep.bump("c15.box_drop_checks");
                 }
